@@ -55,11 +55,8 @@ def leaf(kind, i, j, flag, d):
     return _contract(q, d)
 
 
-def unit(kind: int, i: int, j: int, flag: bool, d: int) -> bool:
-    """
-    pre: 0 <= kind <= 5 and 0 <= i < 56 and 0 <= j <= 3 and 0 <= d < 7
-    post: _
-    """
+def unit(kind, i, j, flag, d):
+    # no PEP316 contract here on purpose: CrossHair may short-circuit calls to contracted functions
     kind, i, j, d, flag = ci(kind, 5), ci(i, 55), ci(j, 3), ci(d, 6), cb(flag)
     with NoTracing():
         return leaf(kind, i, j, flag, d)
